@@ -68,6 +68,7 @@ class ItemSpec:
         self.inserts = []  # (where, anchor, text)
         self.replaces = []  # (rule, old, new, all)
         self.extra_attrs = []
+        self.extra_lits = []
 
 
 def _parse_clause_line(s):
@@ -119,6 +120,8 @@ def parse_item_block(lines, start, file, path):
             spec.external_body = True
         elif b.startswith("attr "):
             spec.extra_attrs.append(b[5:].strip())
+        elif b.startswith("strlit "):
+            spec.extra_lits += re.findall(r'"(?:[^"\\]|\\.)*"', b[7:])
         elif b.startswith("keep-derive"):
             spec.keep_derive = b.split()[1:]
         elif b.startswith("loop "):
@@ -205,6 +208,36 @@ def rewrite_f32(text):
         out.append(t[i])
         i += 1
     return "".join(out), n
+
+
+def _unescape(lit):
+    body = lit[1:-1]
+    if "\\" in body:
+        try:
+            return bytes(body, "utf-8").decode("unicode_escape")
+        except Exception:
+            return None
+    return body
+
+
+def strlit_hints(lits):
+    """proof text making the given string literals pairwise distinct for the solver:
+    reveal each, state its length, and for equal-length pairs name a differing position"""
+    out = []
+    vals = []
+    for l in lits:
+        v = _unescape(l)
+        out.append("reveal_strlit(%s);" % l)
+        if v is not None:
+            out.append("assert(%s@.len() == %d);" % (l, len(v)))
+            vals.append((l, v))
+    for i in range(len(vals)):
+        for j in range(i + 1, len(vals)):
+            (l1, v1), (l2, v2) = vals[i], vals[j]
+            if len(v1) == len(v2) and v1 != v2:
+                k = [n for n in range(len(v1)) if v1[n] != v2[n]][0]
+                out.append("assert(%s@[%d] != %s@[%d]);" % (l1, k, l2, k))
+    return " ".join(out)
 
 
 def strip_inner_attrs(text):
@@ -407,6 +440,15 @@ def weave_fn(w, spec, text, fn_label, item_index, twin):
     if spec.external_body:
         w.add("{ unimplemented!() }")
         return hl
+    # --- string literal distinctness hints (proof only, no assumption): reveal every literal
+    # that occurs in the body or the contract at the start of the body
+    if FLAGS.get("strlit"):
+        lits = list(spec.extra_lits)
+        for mm in re.finditer(r'(?<![A-Za-z0-9_])"((?:[^"\\\n]|\\.)*)"', text[body_open:] + "\n" + "\n".join(c.text for _, cl in sections for c in cl)):
+            if mm.group(0) not in lits:
+                lits.append(mm.group(0))
+        if lits:
+            edits.append((body_open + 1, "\n        proof { %s }\n" % strlit_hints(lits)))
     # --- body with edits
     edits.sort(key=lambda e: e[0])
     pos = body_open
@@ -428,6 +470,7 @@ def weave_fn(w, spec, text, fn_label, item_index, twin):
 
 
 _inline_buf = []
+FLAGS = {}
 
 
 def _add_inline(w, s):
@@ -448,7 +491,8 @@ def expand(unit_path, twin=False, repo=None):
     repo = repo or REPO
     w = Woven()
     lines = open(unit_path).read().split("\n")
-    flags = {"f32": False, "fmt": False}
+    flags = {"f32": False, "fmt": False, "strlit": False}
+    FLAGS.clear()
     src_cache = {}
     i = 0
     while i < len(lines):
@@ -482,6 +526,7 @@ def expand(unit_path, twin=False, repo=None):
                     flags[f[1:]] = False
                 else:
                     flags[f] = True
+            FLAGS.update(flags)
             i += 1
         elif d.startswith("item "):
             mm = d[5:].split("::")
